@@ -81,8 +81,13 @@ impl World {
     let k = spec.rune_names.len();
     assert!(k == 0 || (spec.regtest && !spec.no_rune_index), "runes need regtest and a rune index");
 
-    // blocks 1..=k fund the commits, k+1 the foreign tx, k+2 the distribution when k = 0
-    Self::mine(&core, (k + 2) as u64);
+    // blocks 1..=k fund the commits, k+1 the foreign tx, k+2 the distribution when k = 0,
+    // k+3.. extra funding when the prepared outputs are worth more than those inputs
+    let coin: u64 = 50 * 100_000_000;
+    let need: u64 = spec.outputs.iter().map(|o| o.value).sum();
+    let have: u64 = k.max(1) as u64 * coin;
+    let extra = if need > have { (need - have).div_ceil(coin) as usize } else { 0 };
+    Self::mine(&core, (k + 2 + extra) as u64);
     let wallet_address = core.state().new_address(false);
     let foreign_address =
       Address::from_script(&ScriptBuf::new_p2wpkh(&bitcoin::WPubkeyHash::from_byte_array([0; 20])), network).unwrap();
@@ -168,6 +173,9 @@ impl World {
         }
       } else {
         inputs.push((k + 2, 0, 0, witness.clone()));
+      }
+      for i in 0..extra {
+        inputs.push((k + 3 + i, 0, 0, Witness::new()));
       }
       let total: u64 = inputs.len() as u64 * 50 * 100_000_000;
       let mut edicts = Vec::new();
